@@ -205,7 +205,7 @@ class QDepthwiseConv2DBatchnorm(QDepthwiseConv2D):
         reduction_axes,
         keep_dims=keep_dims)
     gamma = self.batchnorm.gamma
-    beta = self.batchnorm.beta
+    beta = self.batchnorm.beta if self.batchnorm.center else 0
     moving_mean = self.batchnorm.moving_mean
     moving_variance = self.batchnorm.moving_variance
 
@@ -350,7 +350,7 @@ class QDepthwiseConv2DBatchnorm(QDepthwiseConv2D):
 
     # get Batchnorm stats
     gamma = self.batchnorm.gamma
-    beta = self.batchnorm.beta
+    beta = self.batchnorm.beta if self.batchnorm.center else 0
     moving_mean = self.batchnorm.moving_mean
     moving_variance = self.batchnorm.moving_variance
 
